@@ -41,6 +41,15 @@ def handleC16 : Handler := fun args =>
         if allReturn (cap + 4) s then "returned" else "blocked"
       else "bad-op"
     | _ => "bad-op"
+  | ["cancel-late", a, len, cap, occ] =>
+    -- no receiver; the generator first runs until it is stuck (or done), then the context is cancelled
+    match natArgs [a, len, cap, occ] with
+    | some [a, len, cap, occ] =>
+      if a < two32 ∧ len ≤ 32 ∧ occ ≤ cap then
+        let s := advance (cap + 4) (genInit a len cap occ false false true)
+        if allReturn (cap + 4) { s with cancelled := true } then "returned" else "blocked"
+      else "bad-op"
+    | _ => "bad-op"
   | _ => none
 
 end LLRP.Oracle
